@@ -76,6 +76,10 @@ CHECKS = {
    text="Part 1: exhaustive over all (grant, requested pattern) pairs over {a,b,?,#} up to depth 4/5: where auth::pattern_matches claims containment, every key the real server returns for the request must be covered by the grant under the documented relation. Part 2: explicit-state search over request sequences (all request kinds x keys/patterns) of a session on a server that requires authorization, for 10 tokens (none, five grant sets, expired, forged, unsupported algorithm, garbage; real HS256 tokens): nothing is served before a valid token; a served request only returns/changes/removes keys (answer, store difference, unrestricted internal observer) covered by a grant of its privilege; a refused request has no effect.",
    note="Only soundness (served => covered) is asserted; token expiry uses the wall clock with expiry times decades away.",
    technique="exhaustive enumeration of pattern pairs + explicit-state model checking of sessions on the real protocol handler with authorization on"),
+ "C18": dict(cat="fault_enumeration", engine="wbmc-core/tree", ref="DESIGN.md §3 C18",
+   text="Stateless enumeration of all sequences (depth 4 quick / 5 thorough) over set, cset, delete, single- and multi-key pdelete, connect, grave-goods/last-will registration, disconnect and 'settle' steps on a core built by the real persistence::restore in ReDB mode: the background writer only runs at settle steps, so every batching of the queued changes is produced; every sequence ends with a crash (the whole runtime is dropped) or with a clean stop (flush), then a fresh runtime restores from the database file; the recovered content (values, kinds, versions, registrations applied) must be the reference state after some prefix of the single-key change sequence that contains everything committed before the last settle (all of it after a clean stop).",
+   note="redb's transaction atomicity/durability is trusted (process-crash model at transaction granularity); syscall-level crash points inside a commit are not enumerated.",
+   technique="bounded-exhaustive exploration of writer batchings and stop points on the real ReDB persistence path (prefix-consistency oracle)"),
 }
 
 NOT_YET = {}
